@@ -501,6 +501,19 @@ def rule_r5(ctx) -> List[R.Inst]:
     return insts
 
 
+def _strip_repr(e):
+    """representation changes that keep the elements and their order"""
+    while True:
+        if isinstance(e, ast.Call) and isinstance(e.func, ast.Attribute) and e.func.attr in ("tolist", "to_list", "to_numpy", "copy") and not e.args:
+            e = e.func.value
+        elif isinstance(e, ast.Call) and isinstance(e.func, ast.Name) and e.func.id in ("list", "tuple", "iter") and len(e.args) == 1:
+            e = e.args[0]
+        elif isinstance(e, ast.Attribute) and e.attr in ("values", "array"):
+            e = e.value
+        else:
+            return e
+
+
 def rule_r6(ctx) -> List[R.Inst]:
     """slot arithmetic shape and timing-map provenance of the writer"""
     M = ctx.M
@@ -622,6 +635,7 @@ def rule_r6(ctx) -> List[R.Inst]:
                         if isinstance(a_, ast.Name):
                             ds_ = [x.value for x in ast.walk(fn.node) if isinstance(x, ast.Assign) and isinstance(x.targets[0], ast.Name) and x.targets[0].id == a_.id]
                             a_ = ds_[0] if len(ds_) == 1 else a_
+                        a_ = _strip_repr(a_)      # G["c"].tolist() / list(G["c"]) / G["c"].to_numpy(): the same elements in the same order
                         if isinstance(t_, ast.Name) and isinstance(a_, ast.Subscript) and C.const_str(a_.slice):
                             colof[t_.id] = ("col", unparse(a_.value), C.const_str(a_.slice))
 
